@@ -252,6 +252,7 @@ func runCase(c Case) (err error) {
 		}
 	}()
 	var wg sync.WaitGroup
+	var progress atomic.Int64
 	for gi, name := range c.Methods {
 		m := lookup(name)
 		if m == nil {
@@ -263,6 +264,7 @@ func runCase(c Case) (err error) {
 			defer catch(m.name)
 			for i := 0; i < iterations; i++ {
 				m.f(s, i*7+gi)
+				progress.Add(1)
 				if i%16 == 0 {
 					runtime.Gosched()
 				}
@@ -271,12 +273,30 @@ func runCase(c Case) (err error) {
 	}
 	done := make(chan struct{})
 	go func() { wg.Wait(); close(done) }()
-	select {
-	case <-done:
-	case <-time.After(30 * time.Second):
-		stop.Store(true)
-		stopPoller.Store(true)
-		return fmt.Errorf("methods %v did not finish within 30s (deadlock?); goroutines with tcell frames:\n%s", c.Methods, tcellStacks())
+	// A deadlock or a spin inside a call shows as no call of any method
+	// completing for 30 s; slowness (a loaded machine, the race detector) does
+	// not, however long the whole case takes.
+	last, lastAt, began := int64(-1), time.Now(), time.Now()
+wait:
+	for {
+		select {
+		case <-done:
+			break wait
+		case <-time.After(time.Second):
+		}
+		if p := progress.Load(); p != last {
+			last, lastAt = p, time.Now()
+		} else if time.Since(lastAt) > 30*time.Second {
+			stop.Store(true)
+			stopPoller.Store(true)
+			return fmt.Errorf("methods %v: no call completed for 30s after %d calls (deadlock?); goroutines with tcell frames:\n%s", c.Methods, last, tcellStacks())
+		}
+		if time.Since(began) > 10*time.Minute {
+			stop.Store(true)
+			stopPoller.Store(true)
+			pbt.Inconclusive(fmt.Sprintf("methods %v still making progress after 10 minutes (%d calls); case abandoned", c.Methods, last))
+			return nil
+		}
 	}
 	stop.Store(true)
 	bgDone := make(chan struct{})
